@@ -1,5 +1,66 @@
-(* Eval02.v — evaluation of C02 observations (stub: replaced when C02 is built). *)
-From Verif Require Import Base Sexp.
+(* Eval02.v — evaluation of C02 observations: generated deriveEqual vs model and specification. *)
+From Coq Require Import String.
+From Verif Require Import Base Sexp Go.Ty Go.Val Go.Equal Go.Compare Go.Methods.
 Open Scope string_scope.
 
-Definition eval02 (e : sexp) : verdict := bad_line.
+Definition res_sexp (r : res bool) : sexp :=
+  match r with
+  | Ok b => L [Sym "ret"; L [Sym "b"; Num (if b then 1 else 0)%Z]]
+  | Pan => Sym "panic"
+  | Unsup => Sym "unsupported"
+  | Stuck => Sym "stuck"
+  end.
+
+(* coverage tag: strategy at the root and whether the two values are equal *)
+Definition strat_tag (s : strat) : string :=
+  match s with
+  | SEqEq => "eqeq" | SPtrNoStruct _ _ => "ptr" | SPtrStruct _ _ => "ptr-struct"
+  | SPtrInline _ _ => "ptr-inline" | SBytes => "bytes" | SSlice _ _ => "slice"
+  | SArray _ _ => "array" | SMap _ _ => "map" | SFields _ _ => "fields"
+  | SUnsup => "unsup" | SStuck => "stuck"
+  end.
+
+Definition eval02 (e : sexp) : verdict :=
+  match e with
+  | L [Sym k; tys; xs; ys; real] =>
+      if (String.eqb k "eq" || String.eqb k "eqc")%bool then
+        match parse_ty tys, parse_val xs, parse_val ys with
+        | Some t, Some x, Some y =>
+            let typed := (has_type [] t x && has_type [] t y)%bool in
+            (* types without user methods: the model the theorems are about, and structural
+               equality as the specification; otherwise the model with the generator's method dispatch;
+               at components with an Equal method the specification is the method's answer *)
+            let m := if method_free t then equal_model t x y else eqm_m [] Top t x y in
+            let s := if method_free t then lift (spec_eq [] t x y) else m in
+            let inguard := typed in
+            {| v_known := typed;
+               v_model_ok := sexp_eqb (res_sexp m) real;
+               v_spec_ok := sexp_eqb (res_sexp s) real;
+               v_guard := inguard;
+               v_model := res_sexp m;
+               v_tag := (if method_free t then "" else "methods/") ++ k ++ "/"
+                        ++ strat_tag (strategy [] Top t) ++ "/"
+                        ++ match m with Ok true => "equal" | Ok false => "different" | _ => "other" end |}
+        | _, _, _ => bad_line
+        end
+      else bad_line
+  | L [Sym k; tys; Sym cls] =>
+      if String.eqb k "sup-eq" then
+        match parse_ty tys with
+        | Some t =>
+            let sup := eq_sup [] Top t in
+            let real_ok := String.eqb cls "ok" in
+            let real_err := String.eqb cls "generator-error" in
+            (* supported -> generated; unsupported -> reported as a generator error *)
+            (* a crash or hang of the generator is C09's subject: not judged here *)
+            let crash := (String.eqb cls "panic" || String.eqb cls "timeout")%bool in
+            let ok := (crash || if sup then real_ok else real_err)%bool in
+            {| v_known := true; v_model_ok := ok; v_spec_ok := ok; v_guard := true;
+               v_model := Sym (if sup then "ok" else "generator-error");
+               v_tag := "support/" ++ (if crash then "generator-crash-see-C09"
+                                       else if sup then "supported" else "unsupported") |}
+        | None => bad_line
+        end
+      else bad_line
+  | _ => bad_line
+  end.
